@@ -45,6 +45,17 @@ ASSERTED = ["assert 8 <= snapshot(5)", "assert 7 == snapshot()", "assert 5 == sn
             "assert snapshot({})['b'] == 2", "assert [1, 2] == snapshot([1+0])", "assert 'x' == snapshot('y')"]
 
 
+TWINS = [("1.0", "1"), ("1", "1.0"), ("True", "1"), ("1", "True"), ("0", "False"), ("False", "0.0"), ("(1, 2)", "(1.0, 2.0)"), ("'a'", "'a'"), ("2", "2"),
+         ("frozenset({1})", "frozenset({1.0})"), ("1j + 0", "1"), ("-0.0", "0")]
+TWIN_FORMS = [
+    ["s = snapshot({'a': []})", "_ok = s['a'] == [%(x)s]", "_ok = s['b'] == %(y)s"],
+    ["s = snapshot({'a': {}})", "_ok = s['a'] == {'k': %(x)s}", "_ok = s['b'] == %(y)s"],
+    ["s = snapshot({'a': DC4()})", "_ok = s['a'] == DC4(b=%(x)s)", "_ok = s['b'] == %(y)s"],
+    ["s = snapshot({'a': [7+0]})", "_ok = s['a'] == [7, %(x)s]", "_ok = s['b'] == [%(y)s]", "_ok = %(y)s in s['c']"],
+    ["_ok = [%(x)s, %(y)s] == snapshot([])", "_ok = {'p': %(y)s, 'q': %(x)s} == snapshot({'p': [%(y)s][0]})"],
+]
+
+
 def bounds(tier):
     return {"multi_file_projects": len(MULTI), "programs": len(_programs(tier)), "max_slots": 3, "plugin_programs": 12 if tier == "quick" else 80}
 
@@ -97,6 +108,10 @@ def _programs(tier):
         progs.append({"sh": "sites", "s": list(combo)})
     for combo in (("fti", "fti2"), ("fti", "fti2", "create"), ("fti", "ftsub"), ("ftsub", "fti", "update"), ("fti2", "fix", "fti"), ("fti", "trim", "fti2", "fix")):
         progs.append({"sh": "sites", "s": list(combo)})
+    # equal values of different types (1 / 1.0 / True ...) inserted by fix and created under another key of the same snapshot
+    for x, y in TWINS:
+        for v in range(len(TWIN_FORMS)):
+            progs.append({"sh": "twins", "x": x, "y": y, "v": v})
     # several call sites on one source line; what an earlier session writes in front (non-ASCII text) shifts the columns of the later ones
     line_sites = ("createuni", "fixuni", "fixl", "trim", "update", "updl", "trimin")
     for k in (2, 3):
@@ -184,6 +199,9 @@ def source(p):
         body = ["_ok = {'k': %r%s} == snapshot({'k': [%s]%s})" % (obs, new_other, ", ".join(txt), old_other)]
     elif sh == "asserted":
         body = [ASSERTED[i] for i in p["s"]]
+    elif sh == "twins":
+        pre = DC4 + pre
+        body = [l % {"x": p["x"], "y": p["y"]} for l in TWIN_FORMS[p["v"]]]
     elif sh == "oneline":
         st = {"createuni": "U == snapshot()", "fixuni": "U == snapshot('x')", "trim": "5 <= snapshot(9)", "update": "5 == snapshot(5+0)",
               "trimin": "5 in snapshot([5, 6+0])", "fixl": "[5, 6] == snapshot([5+0])", "updl": "[5, 6] == snapshot([5, 6+0])"}
